@@ -848,8 +848,8 @@ bool GennaroJareckiKrawczykRabinDKG::Generate
 		{
 			mpz_set_ui(rhs, *it);
 			rbc->Broadcast(rhs);
-			rbc->Broadcast(s_ij[i][*it]);
-			rbc->Broadcast(sprime_ij[i][*it]);
+			rbc->Broadcast(s_ij[*it][i]); // the shares received from the accused party
+			rbc->Broadcast(sprime_ij[*it][i]);
 		}
 		mpz_set_ui(rhs, n); // broadcast end marker
 		rbc->Broadcast(rhs);
@@ -905,18 +905,21 @@ bool GennaroJareckiKrawczykRabinDKG::Generate
 						complaints.push_back(j);
 						mpz_set_ui(bar, 0L); // indicates an error
 					}
-					// verify complaint, i.e. (4) holds (5) not.
+					// verify complaint, i.e. (4) holds (5) not, for the shares that
+					// $P_j$ claims to have received from the accused party $P_{who}$
 					// compute LHS for the check
-					tmcg_mpz_fpowm(fpowm_table_g, lhs, g, foo, p);
+					mpz_t gs;
+					mpz_init(gs);
+					tmcg_mpz_fpowm(fpowm_table_g, gs, g, foo, p);
 					tmcg_mpz_fpowm(fpowm_table_h, bar, h, bar, p);
-					mpz_mul(lhs, lhs, bar);
+					mpz_mul(lhs, gs, bar);
 					mpz_mod(lhs, lhs, p);
 					// compute RHS for the check
 					mpz_set_ui(rhs, 1L);
 					for (size_t k = 0; k <= t; k++)
 					{
-						mpz_ui_pow_ui(foo, who + 1, k); // adjust index $i$ in computation
-						mpz_powm(bar, C_ik[j][k], foo, p);
+						mpz_ui_pow_ui(foo, j + 1, k); // adjust index $j$ in computation
+						mpz_powm(bar, C_ik[who][k], foo, p);
 						mpz_mul(rhs, rhs, bar);
 						mpz_mod(rhs, rhs, p);
 					}
@@ -926,32 +929,34 @@ bool GennaroJareckiKrawczykRabinDKG::Generate
 						err << "P_" << i << ": checking 4(c)(4) failed; complaint against P_" << j << std::endl;
 						complaints.push_back(j);
 					}
-					// compute LHS for the check
-					tmcg_mpz_fpowm(fpowm_table_g, lhs, g, foo, p);
-					// compute RHS for the check
-					mpz_set_ui(rhs, 1L);
-					for (size_t k = 0; k <= t; k++)
-					{
-						mpz_ui_pow_ui(foo, i + 1, k); // adjust index $i$ in computation
-						mpz_powm(bar, A_ik[j][k], foo, p);
-						mpz_mul(rhs, rhs, bar);
-						mpz_mod(rhs, rhs, p);
-					}
-					// check equation (5)
-					if (mpz_cmp(lhs, rhs))
-					{
-						err << "P_" << i << ": checking 4(c)(5) failed; complaint against P_" << who;
-						if (std::find(QUAL.begin(), QUAL.end(), who) != QUAL.end())
-							complaints.push_back(who);
-						else
-							err << " (ignoring; not in QUAL)";
-						err << std::endl;
-					}
 					else
 					{
-						err << "P_" << i << ": checking 4(c)(5) not failed; complaint against P_" << j << std::endl;
-						complaints.push_back(j);
+						// compute RHS for the check
+						mpz_set_ui(rhs, 1L);
+						for (size_t k = 0; k <= t; k++)
+						{
+							mpz_ui_pow_ui(foo, j + 1, k); // adjust index $j$ in computation
+							mpz_powm(bar, A_ik[who][k], foo, p);
+							mpz_mul(rhs, rhs, bar);
+							mpz_mod(rhs, rhs, p);
+						}
+						// check equation (5)
+						if (mpz_cmp(gs, rhs))
+						{
+							err << "P_" << i << ": checking 4(c)(5) failed; complaint against P_" << who;
+							if (std::find(QUAL.begin(), QUAL.end(), who) != QUAL.end())
+								complaints.push_back(who);
+							else
+								err << " (ignoring; not in QUAL)";
+							err << std::endl;
+						}
+						else
+						{
+							err << "P_" << i << ": checking 4(c)(5) not failed; complaint against P_" << j << std::endl;
+							complaints.push_back(j);
+						}
 					}
+					mpz_clear(gs);
 					cnt++;
 				}
 				while ((who < n) && (cnt <= n)); // no end marker received
